@@ -413,10 +413,28 @@ def rule_norm_route(ctx):
     # setup() stores the normalized character back into the view on every iteration
     st = get_fn(facts, M, "fuzzy_optimal::<impl matrix::MatcherDataView<'_, H>>::setup")
     stores = []
-    for bi, si, s in st.stmts(lambda s: s["k"] == "assign" and s["lhs"]["p"] == ["deref"]):
+    # a store into memory (through a reference / an index: `*c_ = c`, `self.haystack[i] = c`), not into a local
+    for bi, si, s in st.stmts(lambda s: s["k"] == "assign" and any(el == "deref" or (isinstance(el, dict) and "index" in el) for el in s["lhs"]["p"])):
         e = st.expr_of_rvalue(s["rv"])
         if e[0] == "field" and e[2] == "0" and peel(e[1])[0] == "call" and (peel(e[1])[3] in CCAN_FNS or peel(e[1])[1] in CCAN_FNS):
-            stores.append((bi, si))
+            # ... and the memory is the haystack view of the slab
+            tgt = st.expr_of_place({"l": s["lhs"]["l"], "p": []})
+            names = set()
+            seen_l = set()
+            work = [tgt]
+            for el in s["lhs"]["p"]:
+                if isinstance(el, dict) and "f" in el:
+                    names.add(el["name"])
+            while work:
+                x0 = work.pop()
+                for x in walk(x0):
+                    if x[0] == "field":
+                        names.add(x[2])
+                    if x[0] == "local" and x[1] not in seen_l:
+                        seen_l.add(x[1])
+                        work += [d for _, _, d in st.def_exprs(x[1])]
+            if "haystack" in names:
+                stores.append((bi, si))
     if stores:
         # in the column loop, before the comparison
         cmp_blocks = [bi for bi, t in st.calls(lambda t: str(t.get("fn")).endswith("PartialEq::eq"))]
